@@ -454,7 +454,7 @@ def _e2_shards(tier):
 
 def _e1_shards(tier):
     N, D, F = (4, 3, 2) if tier == "quick" else (5, 3, 2)
-    profiles = [{}, {"open": 1}, {"open": 2}, {"open": 3}, {"open": 4}, {"open": 5}, {"msg": 4}, {"fin": 1}, {"exc": 2}, {"flaky_first": 0}, {"open": 6, "exc": 7, "ext": 1, "F": 0}, {"open": 6, "F": 0}]
+    profiles = [{}, {"open": 1}, {"open": 2}, {"open": 3}, {"open": 4}, {"open": 5}, {"msg": 4}, {"fin": 1}, {"exc": 2}, {"flaky_first": 0}, {"open": 6, "exc": 7, "ext": 1, "F": 0}, {"open": 6, "F": 0}, {"real_uuid": 1, "open": 5}, {"real_uuid": 1, "msg": 3}]
     out = []
     for p in profiles:
         s = dict(dict(N=N if not p else N - 1, D=D, F=F), **p)
